@@ -26,13 +26,6 @@ pub struct Case {
     pub history: Option<History>,
 }
 
-#[derive(Clone, Debug, Serialize, Deserialize)]
-pub struct History {
-    pub warm_flag: u8,
-    /// 0 sequence, 1 vout, 2 txid byte of an input; 3 value, 4 script of an output; 5 version; 6 locktime
-    pub field: u8,
-    pub which: u16,
-}
 
 impl Property for C03 {
     type Case = Case;
@@ -65,52 +58,13 @@ impl Property for C03 {
         let sh = sighash_of(c.flag)?;
         let mut tx = match &c.history {
             None => parse_fresh(&r)?,
-            Some(h) => {
-                // the same contents, reached through the mutation API after the cache was filled
-                let mut r0 = r.clone();
-                let wi = gen::pick(h.which, r.ins.len());
-                let wo = if r.outs.is_empty() { None } else { Some(gen::pick(h.which, r.outs.len())) };
-                match (h.field % 7, wo) {
-                    (0, _) => r0.ins[wi].sequence ^= 0x0001_0100,
-                    (1, _) => r0.ins[wi].vout = r0.ins[wi].vout.wrapping_add(1),
-                    (2, _) => r0.ins[wi].txid_wire[7] ^= 0x20,
-                    (3, Some(k)) => r0.outs[k].value ^= 0x100,
-                    (4, Some(k)) => r0.outs[k].script.push(0x51),
-                    (5, _) | (3, None) => r0.version ^= 2,
-                    _ => r0.locktime ^= 4,
-                }
-                // keep coinbase-form inputs parseable: an input that changes its null-outpoint status is skipped
-                if r0.ins[wi].is_null_outpoint() != r.ins[wi].is_null_outpoint() {
-                    parse_fresh(&r)?
-                } else {
-                    let mut t = parse_fresh(&r0)?;
-                    let warm = sighash_of(FORKID_FLAGS[(h.warm_flag % 6) as usize])?;
-                    let _ = lib_call("sighash_preimage(warm)", || t.sighash_preimage(warm, idx, &script, c.value))?;
-                    match (h.field % 7, wo) {
-                        (0, _) | (1, _) | (2, _) => {
-                            let mut x = t.get_input(wi).ok_or_else(|| failure("get_input", "None", "Some"))?;
-                            x.set_sequence(r.ins[wi].sequence);
-                            x.set_vout(r.ins[wi].vout);
-                            x.set_prev_tx_id(&r.ins[wi].txid_display());
-                            lib_call("set_input", || t.set_input(wi, &x))?;
-                        }
-                        (3, Some(k)) | (4, Some(k)) => {
-                            let s = lib_call("Script::from_bytes", || Script::from_bytes(&r.outs[k].script))?.map_err(|e| failure("output_script_accepted", e.to_string(), "Ok"))?;
-                            lib_call("set_output", || t.set_output(k, &bsv::TxOut::new(r.outs[k].value, &s)))?;
-                        }
-                        (5, _) | (3, None) => {
-                            let _ = t.set_version(r.version);
-                        }
-                        _ => {
-                            let _ = t.set_nlocktime(r.locktime);
-                        }
-                    }
-                    let now = t.to_bytes().map_err(|e| failure("to_bytes", e.to_string(), "Ok"))?;
-                    crate::ensure_eq_hex!(now, crate::refimpl::wire::encode_tx(&r), "history_reaches_target_contents");
+            Some(h) => match reach_through_history(&r, h, idx, &script, c.value, &FORKID_FLAGS)? {
+                Some(t) => {
                     o.nt("reached-through-history");
                     t
                 }
-            }
+                None => parse_fresh(&r)?,
+            },
         };
         let got = lib_call("sighash_preimage", || tx.sighash_preimage(sh, idx, &script, c.value))?;
         let want = sighash::forkid_preimage(&r, idx, c.flag as u32, &sbytes, c.value);
